@@ -364,6 +364,10 @@ func (t *tr) stmts(list []ast.Stmt, ind string) string {
 	s := list[0]
 	rest := list[1:]
 	switch v := s.(type) {
+	case *ast.AssignStmt:
+		if v.Tok == token.DEFINE && len(v.Lhs) == 1 && len(v.Rhs) == 1 {
+			return "let " + src(v.Lhs[0]) + " := " + t.expr(v.Rhs[0]) + "\n" + ind + t.stmts(rest, ind)
+		}
 	case *ast.ReturnStmt:
 		if len(v.Results) == 1 {
 			return t.expr(v.Results[0])
@@ -934,6 +938,9 @@ func main() {
 		funcs[name] = lean
 	}
 	emit(root, c, "", "isNull", "isNull", "(msg : List UInt8) : Bool", nil)
+	funcs["bytes.TrimSpace"] = "trimSpace"
+	emit(root, c, "", "firstByte", "firstByte", "(data : List UInt8) (trimSpace : List UInt8 → List UInt8) : Int", nil)
+	delete(funcs, "firstByte") // callers pass the byte as an atom
 	emit(root, c, "", "isValidID", "isValidID", "(v : List UInt8) : Bool", nil)
 	emit(root, c, "", "isValidVersion", "isValidVersion", "(v : List UInt8) : Bool", nil)
 	emit(root, c, "", "fixID", "fixID", "(id : List UInt8) : List UInt8", map[string]string{"nil": "[]"})
